@@ -434,7 +434,24 @@ def f_lmcall(a):
     return {"op": "lmcall", "sr": srmodel(a["sr"]), "G": a["G"], "s": a["s"], "res": enc_w(g.R, v)}
 
 
-FUNCS = {"pnext": f_pnext, "ntw": f_ntw, "ntw_vs_parser": f_ntw_vs_parser, "lmcall": f_lmcall,"parse": f_parse, "prefix": f_prefix, "prefixgrammar": f_prefixgrammar, "derivative": f_derivative,
+def f_pnextseq(a):
+    g = build(a["G"], a["sr"], a.get("names", "str"))
+    lm = _lm(a["backend"], g)
+    v = lm.p_next_seq(ustr(a["ctx"]), ustr(a["ext"]))
+    return {"op": "pnextseq", "sr": srmodel(a["sr"]), "G": a["G"], "ctx": a["ctx"], "ext": a["ext"], "res": enc_w(g.R, v)}
+
+
+def f_mapbool(a):
+    g = build(a["G"], a["sr"], a.get("names", "str"))
+    before = cfg_digest(g)
+    out = g.map_values(lambda x: us.Boolean(x != g.R.zero), us.Boolean)
+    if cfg_digest(g) != before:
+        raise AssertionError("map_values changed the grammar it was applied to")
+    O, _ = cfg_proj(out)
+    return {"op": "mapbool", "sr": srmodel(a["sr"]), "in": a["G"], "out": O, "sigma": a["G"]["V"], "L": a["L"]}
+
+
+FUNCS = {"pnextseq": f_pnextseq, "mapbool": f_mapbool, "pnext": f_pnext, "ntw": f_ntw, "ntw_vs_parser": f_ntw_vs_parser, "lmcall": f_lmcall,"parse": f_parse, "prefix": f_prefix, "prefixgrammar": f_prefixgrammar, "derivative": f_derivative,
          "transform": f_transform, "treesum": f_treesum, "lang": f_lang, "mask": f_mask, "addeos": f_addeos,
          "normalize": f_normalize, "derivcall": f_derivcall, "explen": f_explen}
 
